@@ -55,11 +55,11 @@ DIRECTED = {
     # plain callbacks that return a future (some background work of the user's): called, never awaited (C02/C03)
     "callback_returns_future": S(
         {"cls": "TaskPool", "size": 2, "reqs": [{"kind": "apply", "num": 2, "ecb": "sfut", "ccb": "sfut"},
-                                                 {"kind": "map", "num": 3, "nc": 2, "ecb": "sfut"}]},
+                                                 {"kind": "map", "num": 3, "nc": 2, "ecb": "sobj", "ccb": "sobj"}]},
         op(o="spawn", t=0), IDLE, op(o="release", id=0, out="ret"), op(o="cancel", ids=[1]), IDLE,
         op(o="spawn", t=1), IDLE, DRAIN, {"c": "probe", "k": 2}),
     "callback_returns_future_simple": S(
-        {"cls": "SimpleTaskPool", "size": 1, "simple": {"ecb": "sfut", "ccb": "sfut"}},
+        {"cls": "SimpleTaskPool", "size": 1, "simple": {"ecb": "sobj", "ccb": "sfut"}},
         op(o="spawn", num=2), IDLE, op(o="stop", n=1), IDLE, op(o="hstart", kind="gac"), DRAIN),
     # stop() on a SimpleTaskPool whose running ids have gaps, negative and oversized arguments (C14)
     "stop_with_gaps": S(
